@@ -97,6 +97,7 @@ def run(prog, check):
     from ..tableterm import TermEval, canon_index, show, rep_parts, alpha_eq
     allvar, eqlist = 'AllVariables', 'EquationList'
     ge_raw = gen_cls.methods['GenerateEquations']
+    gf_raw = gen_cls.methods['GenerateFunction']
     check.saw(ge_raw)
     ge = flatten(prog, ge_raw)
     list_names = set()
@@ -166,7 +167,6 @@ def run(prog, check):
                  'the reported variables are `%s`, required the names of every endogenous and exogenous item and no lag carrier' %
                  show(canon_index(env.get('self.NonLagged', ('opaque', '?'))))[:240],
                  'a lag carrier not named LAG_*, or an ordinary variable named LAG_*')
-    gf_raw = gen_cls.methods['GenerateFunction']
     check.saw(gf_raw)
     gf = flatten(prog, gf_raw)
     uses = [n for n in ast.walk(gf.node) if isinstance(n, ast.Attribute) and n.attr in list_names | {allvar, eqlist}]
@@ -208,6 +208,29 @@ def run(prog, check):
     check.ob('C20.R2', '%s::body-indexed-consistently' % gf_raw.key, okb, gf_raw.where,
              'NEW_<var>[i] = EquationList[i] for i in range(len(AllVariables))' if okb else
              'iterator body does not pair decorated[i] with EquationList[i] over the whole vector (%s)' % whyb, 'any block')
+    # the derived lists and the iterator text are rebuilt by every call of the entry point that writes the file
+    writer_names = {m_ for m_ in gen_cls.methods if m_ == 'GenerateFile'}
+    for m_ in gen_cls.methods.values():
+        calls_ = {call_name(c_) for c_ in ast.walk(m_.node) if isinstance(c_, ast.Call) and isinstance(c_.func, ast.Attribute)
+                  and isinstance(c_.func.value, ast.Name) and c_.func.value.id == 'self'}
+        if not (writer_names & calls_) or m_.name in writer_names:
+            continue
+        mf = flatten(prog, m_)
+        gm = cfgmod.build(mf)
+
+        def calls_to(name):
+            return [n_ for n_ in gm.stmt_nodes() if any(isinstance(c_, ast.Call) and call_name(c_) == name and isinstance(c_.func, ast.Attribute)
+                                                      and unparse(c_.func.value) == 'self' for c_ in ast.walk(n_.ast if n_.ast is not None else ast.Pass()))
+                    and n_.kind in ('stmt', 'test')]
+        wr = calls_to('GenerateFile')
+        eqs, fns = calls_to(ge_raw.name), calls_to(gf_raw.name)
+        ok = bool(wr) and bool(eqs) and bool(fns) and all(gm.must_pass(gm.entry.id, w_, eqs) and gm.must_pass(gm.entry.id, w_, fns) for w_ in wr) \
+            and all(gm.must_pass(gm.entry.id, f_, eqs) for f_ in fns)
+        check.saw(m_)
+        check.ob('C20.R2', '%s::lists-rebuilt-before-writing' % m_.key, ok, m_.where,
+                 'every path to the file writer first rebuilds the variable / equation lists and then the iterator text' if ok else
+                 'the file can be written without rebuilding the variable / equation lists and the iterator text: after a second '
+                 'ParseString the module gets the new declarations and the old iterator', 'ParseString(block1); main(f1); ParseString(block2); main(f2)')
     go = gen_cls.methods.get('GenerateOrigVector')
     if go is not None:
         check.saw(go)
@@ -465,7 +488,7 @@ def run(prog, check):
                          'the first block\'s iterator' % r_.value.attr, 'the same generator object parsed twice with a changed right-hand side')
     check.floor('C20.R1', 2)
     check.floor('C20.R2', 10)
-    check.floor('C20.R3', 4)
+    check.floor('C20.R3', 2)
 
 
 def list_appended_attrs(fn):
